@@ -21,7 +21,10 @@ CFG = {
             "pixel values and checked by comparing aligned / offset / strided inputs byte for byte.",
     "profiles": ["release", "checked"],
     "level": "proof",
-    "rule": "cases = (A) 12 colour formats x 5 filters x straight alpha on/off x 5 memory layouts (4-aligned, buffer "
+    "rule": "cases = (A2) very long rows / columns (997x1 ... 4096x1, 2047x2) with boundary constants and opaque content for "
+            "every precision and filter; (A3) `S` sequences: six cube-map faces in changing colour formats through ONE "
+            "encoder, aligned vs unaligned / strided input of the same pixels (file bytes must be equal; harness oracle "
+            "only, the model answers `seq ok`); (A) 12 colour formats x 5 filters x straight alpha on/off x 5 memory layouts (4-aligned, buffer "
             "offset 1/2/3, strided with odd/even extra pitch) x 5 contents (constant colour incl. alpha 0/1/max, opaque "
             "noise, per-channel bands, transparent/opaque holes, noise) on sizes drawn from the pool; (B) every size of "
             "1..12 x 1..12, a sample (thorough: all) of 1..40 x 1..40, all powers of two up to 256 x 256, extreme aspect "
